@@ -24,6 +24,15 @@ var solvers = []solverSpec{
 	{"cvc5-1.0", func(f string, t int) []string {
 		return []string{"cvc5", "-q", "--lang=smt2", fmt.Sprintf("--tlimit=%d", t*1000), "--seed=7", f}
 	}, true},
+	{"z3-new-5.1.0/seed0", func(f string, t int) []string { return []string{"z3-new", fmt.Sprintf("-T:%d", t), f} }, false},
+}
+
+// extra configurations raced in the second pass (quantifier instantiation is sensitive to
+// the seed; an `unsat` from any configuration is a proof)
+var secondPass bool
+var seedVariants = []solverSpec{
+	{"z3-new-5.1.0/seed42", func(f string, t int) []string { return []string{"z3-new", fmt.Sprintf("-T:%d", t), "smt.random_seed=42", f} }, false},
+	{"z3-4.8.12/seed0", func(f string, t int) []string { return []string{"/usr/bin/z3", fmt.Sprintf("-T:%d", t), f} }, false},
 }
 
 // buildQuery renders the SMT-LIB text deciding one obligation.
@@ -133,9 +142,13 @@ func solveOne(c *Ctx, o *Obligation, dir string, timeoutS int, all bool) {
 	}
 	ctx, cancel := context.WithCancel(context.Background())
 	defer cancel()
-	results := make(chan solveResult, len(solvers))
+	race := solvers
+	if secondPass {
+		race = append(append([]solverSpec{}, solvers...), seedVariants...)
+	}
+	results := make(chan solveResult, len(race))
 	var wg sync.WaitGroup
-	for _, sp := range solvers {
+	for _, sp := range race {
 		sp := sp
 		wg.Add(1)
 		go func() {
